@@ -1018,8 +1018,8 @@ namespace BitSerializer::Convert::Utf
 			}
 			else if (mStartDataPtr != mEncodedBuffer)
 			{
-				// Squeeze buffer
-				std::memcpy(mEncodedBuffer, mStartDataPtr, mEndDataPtr - mStartDataPtr);
+				// Squeeze buffer (ranges can overlap)
+				std::memmove(mEncodedBuffer, mStartDataPtr, mEndDataPtr - mStartDataPtr);
 				mEndDataPtr -= mStartDataPtr - mEncodedBuffer;
 				mStartDataPtr = mEncodedBuffer;
 			}
